@@ -77,19 +77,23 @@ extern ssize_t mpt_memtok(const struct iovec *data, size_t ndat, const char *tok
 			if ( tok )
 				break;
 			/* continue until end of line */
-			do {
-				while ( pos++ < len && *(++curr) != '\n' );
-				
-				if ( pos <= len )
-					break;
+			while ( 1 ) {
+				if ( ++pos < len ) {
+					++curr;
+				}
 				else if ( i >= ndat ) {
 					errno = EAGAIN; return -2;
 				}
-				pos  = 0;
-				curr = data[i].iov_base;
-				len  = data[i++].iov_len;
-				
-			} while ( 1 );
+				/* continue on first character in next data part */
+				else {
+					pos  = 0;
+					curr = data[i].iov_base;
+					if ( !(len = data[i++].iov_len) )
+						continue;
+				}
+				if ( *curr == '\n' )
+					break;
+			}
 		}
 		/* token is found */
 		if ( tok ) {
